@@ -163,6 +163,16 @@ func Lock(word *int32) {
 
 func Unlock(word *int32) { setLockWord(word, 0) }
 
+// TryAcquire takes the lock word if it is free (for set-up code that runs on the
+// controller goroutine, where nothing can be scheduled).
+func TryAcquire(word *int32) bool {
+	if lockWord(word) != 0 {
+		return false
+	}
+	setLockWord(word, 1)
+	return true
+}
+
 // Harness is one closed system: a fixed set of threads over shared state.
 type Harness interface {
 	Threads() int
